@@ -15,20 +15,20 @@ def noBraces (b : Bytes) : Bool := b.all (fun c => c != 123 && c != 125)
 def hexField (s : String) : Option Bytes :=
   if s == "" then none else (Hex.decode s).bind fun b => if asciiOnly b then some b else none
 
+/-- a client-auth shape letter: `some true` = an active shape (mode / CA / trusted leaf / verifier
+    modules, alone or combined), `some false` = the empty block `i` -/
+def authShape (c : Char) : Option Bool :=
+  if "cCgkKaflvVw".toList.contains c then some true
+  else if c == 'i' then some false
+  else none
+
 /-- flags → (drop, clientAuth) -/
-def parseFlags : String → Option (Bool × Bool)
-  | "-" => some (false, false)
-  | "d" => some (true, false)
-  | "c" => some (false, true)
-  | "C" => some (false, true)
-  | "k" => some (false, true)
-  | "a" => some (false, true)
-  | "i" => some (false, false)
-  | "dc" => some (true, true)
-  | "dC" => some (true, true)
-  | "dk" => some (true, true)
-  | "da" => some (true, true)
-  | "di" => some (true, false)
+def parseFlags (s : String) : Option (Bool × Bool) :=
+  match s.toList with
+  | ['-'] => some (false, false)
+  | ['d'] => some (true, false)
+  | [c] => (authShape c).map fun a => (false, a)
+  | ['d', c] => (authShape c).map fun a => (true, a)
   | _ => none
 
 def parseSni (s : String) : Option (Option (List Bytes)) :=
@@ -139,13 +139,16 @@ def e2eSniOk (s : Bytes) : Bool :=
     s.any fun c => (103 ≤ c && c ≤ 122) || (71 ≤ c && c ≤ 90)
 
 def handle : List String → String
-  | ["e2e", hs, sni, host] =>
+  | ["e2e", srv, hs, sni, host] =>
     match hexField sni, hexField host with
     | some s, some h =>
-      if !e2eSniOk s then "bad-op"
+      if !(srv == "0" || srv == "1" || srv == "2") then "bad-op"
+      else if !e2eSniOk s then "bad-op"
       else if hs == "f" then "hs=f"
       else if hs == "p0" || hs == "p1" then
-        "hs=" ++ hs ++ " " ++ showServed (serve (effectiveStrict none e2ePolicies) e2eSites (some s) h)
+        -- every e2e server has one client-auth policy (shape differs, decision does not) and no explicit setting
+        let strict := effectiveStrict none e2ePolicies
+        "hs=" ++ hs ++ " strict=" ++ (if strict then "1" else "0") ++ " " ++ showServed (serve strict e2eSites (some s) h)
       else "bad-op"
     | _, _ => "bad-op"
   | ["pol", l, pols, hellos] =>
